@@ -304,7 +304,7 @@ var c15Degeneracies = []string{
 	"key-type-vs-material", "ed25519-short", "ed25519-nonhex", "key-garbage-pem", "rootca-garbage", "intermediate-garbage", "empty-run", "name-glob", "name-separator", "name-dotdot",
 	"duplicate-step", "steps-null", "inspect-null", "keys-null", "expected-null", "huge-readme", "verifier-key-short", "verifier-key-mismatch", "step-and-inspection-same-name",
 	"link-garbage", "link-empty-object", "link-null-members", "link-bad-cert", "link-pubkey-as-cert", "link-unauthorised-sublayout", "link-authorised-sublayout-no-dir",
-	"link-dir", "link-dangling-symlink", "link-fifo", "link-wrong-shape", "link-materials-null", "link-name-mismatch", "link-sig-garbage", "link-many-sigs", "constraint-odd", "cert-link-odd-constraints", "cert-link-odd-constraints",
+	"link-dir", "link-dangling-symlink", "link-fifo", "link-symlink-to-fifo", "link-symlink-to-dir", "link-wrong-shape", "link-materials-null", "link-name-mismatch", "link-sig-garbage", "link-many-sigs", "constraint-odd", "cert-link-odd-constraints", "cert-link-odd-constraints",
 }
 
 func c15GenWorld(t *rapid.T) c15WorldCase {
@@ -449,6 +449,10 @@ func c15Apply(w hx.World, kinds []string) hx.World {
 			links = append(links, hx.WMetaFile{Name: hostileName("66666666"), Special: "dangling-symlink"})
 		case "link-fifo":
 			links = append(links, hx.WMetaFile{Name: hostileName("77777777"), Special: "fifo"})
+		case "link-symlink-to-fifo":
+			links = append(links, hx.WMetaFile{Name: hostileName("99999999"), Special: "symlink-to-fifo"})
+		case "link-symlink-to-dir":
+			links = append(links, hx.WMetaFile{Name: hostileName("aaaaaaaa"), Special: "symlink-to-dir"})
 		case "link-wrong-shape":
 			links = append(links, hx.WMetaFile{Name: hostileName("88888888"), Raw: `{"signed":[1,2,3],"signatures":"none"}`})
 		case "link-materials-null":
